@@ -648,6 +648,12 @@ def check_merge(world, table, pre_self, pre_self_names, osyms,
             csym = sym.interface.container_symbol
             if any(csym is s for s in skip):
                 continue    # the caller asked for the container to be left
+            if not any(csym is s for s in osyms):
+                # the container was declared in a scope *enclosing* the
+                # other table, so it is not part of what is merged: where it
+                # ends up is not the merge's business (the property speaks
+                # of the symbols of the other table)
+                continue
             try:
                 found = table.lookup(csym.name)
             except KeyError:
